@@ -97,10 +97,11 @@ static void do_tokenize(console_t *c)
 			    c->scratch.buf[i] == '"') {
 				quote = c->scratch.buf[i];
 				c->scratch.buf[i] = '\0';
-			} else {
-				c->argv[c->argc] = c->scratch.buf + i;
-				if (++c->argc >= (int) lengthof(c->argv))
-					break;
+			} else if (c->argc < (int) lengthof(c->argv)) {
+				/* keep scanning after the final argument has
+				 * been found, it still needs terminating
+				 */
+				c->argv[c->argc++] = c->scratch.buf + i;
 			}
 		}
 	}
